@@ -699,7 +699,12 @@ func c08Spec(r *rng.R, i int) *crSpec {
 	o := gen.Opts{Cmp: "bytewise", WriteBuffer: 1024, TableSize: 1024, TotalSize: 2048, BlockSize: 128, L0Trigger: 2, Compression: 1 + r.Intn(2),
 		OpenFiles: 4 + r.Intn(20), NoWriteMerge: true, MaxMemCompLevel: 2}
 	if i%3 == 1 {
-		o.MaxManifest = int64(256 << uint(r.Intn(3)))
+		// 64: every commit rotates the manifest (also each retry of a failed commit), which is what exposes
+		// errors returned by newManifest after the switch
+		o.MaxManifest = int64(r.Pick(64, 64, 256, 1024))
+		if i == 1 {
+			o.MaxManifest = 64
+		}
 	}
 	return &crSpec{Config: fmt.Sprintf("faults-%d", i), Opts: o, Seed: r.U64(), N: 80, BigPct: 8, TxPct: 9, DiscardPct: 25, CompactPct: 6, Settle: i%4 != 3}
 }
